@@ -13,6 +13,27 @@ let int_of_z (v : z) : int = match v with Z0 -> 0 | Zpos p -> int_of_pos p | Zne
 let n_of_int (n : int) : n = if n = 0 then N0 else Npos (pos_of_int n)
 let int_of_n (v : n) : int = match v with N0 -> 0 | Npos p -> int_of_pos p
 
+(* decimal strings of up to 19 digits (Go int): through Int64, bit by bit *)
+let n_of_int64 (v : int64) : n =
+  if Int64.compare v 0L <= 0 then N0 else begin
+    let rec go (v : int64) : positive =
+      if Int64.equal v 1L then XH
+      else if Int64.equal (Int64.logand v 1L) 0L then XO (go (Int64.shift_right_logical v 1))
+      else XI (go (Int64.shift_right_logical v 1)) in
+    Npos (go v)
+  end
+let int64_of_n (v : n) : int64 =
+  let rec go (p : positive) : int64 =
+    match p with XH -> 1L | XO q -> Int64.shift_left (go q) 1 | XI q -> Int64.logor (Int64.shift_left (go q) 1) 1L in
+  match v with N0 -> 0L | Npos p -> go p
+let n_of_dec (s : string) : n = n_of_int64 (Int64.of_string s)
+let z_of_dec (s : string) : z =
+  let v = Int64.of_string s in
+  if Int64.equal v 0L then Z0
+  else if Int64.compare v 0L > 0 then (match n_of_int64 v with Npos p -> Zpos p | N0 -> Z0)
+  else (match n_of_int64 (Int64.neg v) with Npos p -> Zneg p | N0 -> Z0)
+let dec_of_n (v : n) : string = Printf.sprintf "%Ld" (int64_of_n v)
+
 let rec nat_of_int (n : int) : nat = if n <= 0 then O else S (nat_of_int (n - 1))
 let rec int_of_nat (n : nat) : int = match n with O -> 0 | S m -> 1 + int_of_nat m
 
